@@ -11,42 +11,81 @@ import layout
 import tir
 
 
-def thorough_selftest(pid, rep):
-    """thorough tier: every seeded mutant registered for this property is applied to a scratch copy of /repo, facts are
-    re-extracted and this check must report it. A missed mutant is a broken checker (exit 2), never a violation."""
+def thorough_selftest(pid, rep, source_hash=None):
+    """thorough tier: self-validation of this property's check over every variant tree the framework keeps, each applied
+    to a scratch copy of /repo (outside /repo and /verif), with facts re-extracted by the driver:
+      * every seeded mutant registered for this property (mutants/catalogue.json) must be reported, by the named rule;
+      * every kept sub-agent change for this property (seeded/<id>/patch.diff) must be reported;
+      * every behaviour-preserving variant (mutants/benign/*.patch) must leave this check silent.
+    A miss or a false alarm on the pinned tree is a broken checker (exit 2), never a violation. On a tree other than
+    the pinned one the patches need not apply or keep their meaning: results are then recorded but not binding."""
+    import glob
     import json
     import time
     import selftest
     t0 = time.time()
-    ms = [m for m in selftest.catalogue() if pid in m["caught_by"]]
+    try:
+        with open(os.path.join(os.path.dirname(os.path.abspath(__file__)), "pinned_tree.json")) as fh:
+            pinned = json.load(fh)["source_hash"]
+    except (OSError, KeyError, ValueError):
+        pinned = None
+    binding = pinned is not None and source_hash == pinned
+    V = selftest.VERIF
+    jobs = []
+    for m in selftest.catalogue():
+        if pid in m["caught_by"]:
+            jobs.append(("mutant", os.path.join(V, m["patch"]), m.get("rule"), m.get("what")))
+    for d in sorted(glob.glob(os.path.join(V, "seeded", "*"))):
+        try:
+            meta = json.load(open(os.path.join(d, "meta.json")))
+        except (OSError, ValueError):
+            continue
+        if meta.get("property") == pid and meta.get("confirmed", True):
+            jobs.append(("seeded", os.path.join(d, "patch.diff"), None, os.path.basename(d)))
+    for p in sorted(glob.glob(os.path.join(V, "mutants", "benign", "*.patch"))):
+        jobs.append(("benign", p, None, os.path.basename(p)))
     results = []
-    missed = []
+    bad = []
     from concurrent.futures import ThreadPoolExecutor
-    with ThreadPoolExecutor(max_workers=8) as ex:
-        for m, status, res in ex.map(selftest.run_one, [dict(m, caught_by=[pid]) for m in ms]):
+    with ThreadPoolExecutor(max_workers=int(os.environ.get("VERIF_JOBS", "8"))) as ex:
+        for (kind, patch, rule, what), (status, res) in zip(jobs, ex.map(lambda j: selftest.run_patch(j[1], [pid]), jobs)):
+            name = os.path.relpath(patch, V)
             if status != "ran":
-                missed.append(m["patch"])
-                results.append({"mutant": m["patch"], "result": status})
+                results.append({"kind": kind, "patch": name, "result": "patch-does-not-apply"})
+                if binding:
+                    bad.append("%s (%s)" % (name, status))
                 continue
             rc, out = res[pid]
             fired = rc == 1 and ("VIOLATION property=%s" % pid) in out
-            rule = m.get("rule")
-            named = (not rule) or any(rule in line for line in out.splitlines())
-            results.append({"mutant": m["patch"], "what": m.get("what"), "result": "caught" if fired and named else "missed", "rule": rule})
-            if not (fired and named):
-                missed.append(m["patch"])
+            if kind == "benign":
+                ok = rc == 0
+                results.append({"kind": kind, "patch": name, "result": "silent" if ok else "FALSE-ALARM rc=%d" % rc})
+            else:
+                named = (not rule) or any(rule in line for line in out.splitlines())
+                ok = fired and named
+                results.append({"kind": kind, "patch": name, "what": what, "result": "caught" if ok else "missed", "rule": rule})
+            if not ok:
+                bad.append(name)
     path = os.path.join(common.EVID, "%s.json" % pid)
     with open(path) as fh:
         ev = json.load(fh)
-    ev["coverage"]["mutants_applied"] = len(ms)
-    ev["coverage"]["mutants_caught"] = len(ms) - len(missed)
-    ev["coverage"]["mutant_results"] = results
+    cov = ev["coverage"]
+    for kind, good in (("mutant", "caught"), ("seeded", "caught"), ("benign", "silent")):
+        rs = [r for r in results if r["kind"] == kind]
+        cov["%s_variants_applied" % kind] = len(rs)
+        cov["%s_variants_%s" % (kind, good)] = len([r for r in rs if r["result"] == good])
+    cov["mutants_applied"] = cov["mutant_variants_applied"]
+    cov["mutants_caught"] = cov["mutant_variants_caught"]
+    cov["variant_results"] = results
+    cov["variant_results_binding"] = binding
     ev["wall_s"] = round(ev["wall_s"] + time.time() - t0, 3)
     with open(path, "w") as fh:
         json.dump(ev, fh, indent=1)
-    print("%s thorough: %d seeded mutants applied to scratch copies, %d reported by this check" % (pid, len(ms), len(ms) - len(missed)))
-    if missed:
-        print("CHECKER-BROKEN %s: seeded mutants not reported: %s" % (pid, ", ".join(missed)))
+    print("%s thorough: on scratch copies — %d/%d seeded mutants and %d/%d kept sub-agent changes reported by this check, %d/%d behaviour-preserving variants silent%s" % (
+        pid, cov["mutant_variants_caught"], cov["mutant_variants_applied"], cov["seeded_variants_caught"], cov["seeded_variants_applied"],
+        cov["benign_variants_silent"], cov["benign_variants_applied"], "" if binding else " (tree differs from the pinned one: informational)"))
+    if bad and binding:
+        print("CHECKER-BROKEN %s: self-validation failed on: %s" % (pid, ", ".join(bad[:12])))
         return common.EXIT_BROKEN
     return common.EXIT_OK
 
@@ -76,7 +115,7 @@ def main():
         try:
             rc = mod.run(F, rep, tier)
             if tier == "thorough" and rc == common.EXIT_OK and not os.environ.get("PEPPI_REPO"):
-                rc = thorough_selftest(pid, rep)
+                rc = thorough_selftest(pid, rep, doc.get("source_hash"))
             return rc
         except layout.Unsupported as e:
             # a construct outside an engine's fragment that no rule caught locally: fail closed as a violation
